@@ -836,7 +836,12 @@ class PipelineCheck(Check):
             probes["radial_energy_ramp_many_shells"] = 1
         if sc["energy"].get("whole_numbers"):
             probes["integer_valued_energy_column"] = 1
+        if not (0.3 <= spec["factor"] <= 4):
+            # an extreme metric factor puts the rotational and translational rates 10^6..10^12 apart: the interesting
+            # end of the spectrum then sits at relative 1e-8 of |lambda|max, below what either solver resolves
+            probes["eigen_oracle_skipped_extreme_factor"] = 1
         well = (sc["energy"]["sigma"] <= 3 and not sc["energy"].get("half_range") and T >= 250 and n >= 8
+                and 0.3 <= spec["factor"] <= 4
                 and 1 <= s["k"] <= n - 2
                 and n <= sc["dense_cap"])
         if not well:
@@ -867,10 +872,19 @@ class PipelineCheck(Check):
                 raise Violation("eig-real", f"{tag}: complex output")
             if np.any(np.diff(ev) > 0):
                 raise Violation("eig-sorted", f"{tag}: eigenvalues not in descending order: {ev}")
-            for lam in ev:
-                if np.min(np.abs(dense - lam)) > tol_ev:
-                    raise Violation("eig-vs-dense", f"{tag}: eigenvalue {lam!r} is {np.min(np.abs(dense - lam)):.3g} "
-                                                    f"away from the dense spectrum (|l|max={lam_max:.3g})")
+            # one-to-one: every returned eigenvalue needs its own dense partner (a value returned twice must be a
+            # double eigenvalue of the matrix); both lists are sorted, so a greedy sweep decides it
+            ptr = 0
+            for lam in ev:  # both descending: sweep, giving each returned value the first dense value still in reach
+                while ptr < len(dense) and dense[ptr] > lam + tol_ev:
+                    ptr += 1
+                if ptr >= len(dense) or abs(dense[ptr] - lam) > tol_ev:
+                    near = float(dense[np.argmin(np.abs(dense - lam))])
+                    raise Violation("eig-vs-dense", f"{tag}: eigenvalue {lam!r} has no partner of its own in the dense "
+                                                    f"spectrum (nearest dense value {near!r}, tolerance {tol_ev:.3g}, "
+                                                    f"|l|max={lam_max:.3g}; returned "
+                                                    f"{np.array2string(np.asarray(ev), precision=8)})")
+                ptr += 1
             if evec.shape != (n, len(ev)):
                 raise Violation("eig-shape", f"{tag}: eigenvector array {evec.shape} for {len(ev)} eigenvalues")
             probes["eigen_oracle_evaluated"] = probes.get("eigen_oracle_evaluated", 0) + 1
